@@ -221,7 +221,51 @@ def gen_two_gateway(rng: Rng) -> dict:
             "notes": {"routers": 2, "kinds": "router+router", "routing": "two-gateway-" + style, "two_gateway": True, "permit": "all"}}
 
 
+def add_inject(case: dict) -> dict:
+    """family `inject_low_ttl` (deterministic, draws nothing from the generator): crafted ICMP echo requests with TTL 3 / 2 / 1 handed
+    straight to an enabled, cabled router / firewall port (`RouterInterface.receive_frame`; model: `ifaceRecv`), from a host of that
+    port's LAN to (a) a host behind another gateway, (b) a host of the same LAN, (c) an unroutable address — so that
+    `Router.process_frame` / `route_frame` are exercised at the TTL boundary (decrement, `< 1` test, header rewrite, send) with the
+    caches as the case's operations left them (appended), and once before everything else with cold caches (TTL 2, remote
+    destination: the router's own ARP exchange nests inside `process_frame` of a frame that is about to die)."""
+    nodes = case["nodes"]
+    linked = set()
+    for a, i, b, j in case["links"] + case.get("air", []):
+        linked.add((a, i))
+        linked.add((b, j))
+    hosts = [(n, nd) for n, nd in enumerate(nodes) if nd["kind"] == "host"]
+    tail, head = [], []
+    for r, nd in enumerate(nodes):
+        if nd["kind"] not in ("router", "firewall"):
+            continue
+        found = None
+        for i, p in enumerate(nd["ports"]):
+            if p and (r, i) in linked:
+                hs = [h for h, hd in hosts if hd.get("gw") == p["ip"]]
+                if hs:
+                    found = (i, hs[0], p["ip"])
+                    break
+        if not found:
+            continue
+        i, h, gw = found
+        remote = [hd["ip"] for x, hd in hosts if x != h and hd.get("gw") != gw][:1]
+        local = [hd["ip"] for x, hd in hosts if x != h and hd.get("gw") == gw][:1]
+        for dst in remote + local + ["8.8.8.8"]:
+            for ttl in (3, 2, 1):
+                tail.append({"op": "inject", "node": r, "ifc": i, "from": h, "dst": dst, "ttl": ttl})
+        if remote and len(case["ops"]) % 2 == 0 and not head:
+            head.append({"op": "inject", "node": r, "ifc": i, "from": h, "dst": remote[0], "ttl": 2})
+    if tail:
+        case["ops"] = head + case["ops"] + tail[:18]
+        case.setdefault("notes", {})["inject"] = len(head) + len(tail[:18])
+    return case
+
+
 def gen_case(rng: Rng, max_routers: int = 3) -> dict:
+    return add_inject(_gen_case(rng, max_routers))
+
+
+def _gen_case(rng: Rng, max_routers: int = 3) -> dict:
     if rng.chance(1, 14):
         return gen_dmz_cross(rng)
     if rng.chance(1, 12):
@@ -644,6 +688,9 @@ def model_lines(case: dict) -> Tuple[List[str], List[int]]:
             lines.append(f"service {op['src']} {op['dst']}")
         elif op["op"] in ("enable", "disable"):
             lines.append(f"{op['op']} {op['node']} {op['ifc']}")
+        elif op["op"] == "inject":
+            lines.append(f"inject {op['node']} {op['ifc']} {op['ttl']} {macs[(op['from'], 0)]} {macs[(op['node'], op['ifc'])]} "
+                         f"{case['nodes'][op['from']]['ip']} {op['dst']}")
         elif op["op"] == "power":
             lines.append(f"power {op['node']} {op['on']}")
         elif op["op"] == "recable":
@@ -936,6 +983,17 @@ def run_impl(case: dict) -> Tuple[List[str], List[dict]]:
                     ifaces[op["node"]][op["ifc"]].enable()
                 elif op["op"] == "disable":
                     ifaces[op["node"]][op["ifc"]].disable()
+                elif op["op"] == "inject":
+                    from primaite.simulator.network.protocols.icmp import ICMPPacket, ICMPType
+                    from primaite.simulator.network.transmission.data_link_layer import EthernetHeader, Frame
+                    from primaite.simulator.network.transmission.network_layer import IPPacket
+                    from primaite.utils.validation.ip_protocol import PROTOCOL_LOOKUP
+                    port = ifaces[op["node"]][op["ifc"]]
+                    fr = Frame(ethernet=EthernetHeader(src_mac_addr=ifaces[op["from"]][0].mac_address, dst_mac_addr=port.mac_address),
+                               ip=IPPacket(src_ip_address=case["nodes"][op["from"]]["ip"], dst_ip_address=op["dst"],
+                                           protocol=PROTOCOL_LOOKUP["ICMP"], ttl=op["ttl"]),
+                               icmp=ICMPPacket(icmp_type=ICMPType.ECHO_REQUEST, identifier=9000 + len(records), sequence=0))
+                    port.receive_frame(fr)
                 elif op["op"] == "recable":
                     nic = ifaces[op["node"]][op["ifc"]]
                     net.remove_link(nic._connected_link)
@@ -966,7 +1024,7 @@ def run_impl(case: dict) -> Tuple[List[str], List[dict]]:
                     toks.append(f"sw:{e[1]}:{id(e[2])}")
             if res == "OOF":
                 answers.append("OOF")
-            elif op["op"] in ("ping", "enable", "service", "recable") or (op["op"] == "power" and op["on"]):
+            elif op["op"] in ("ping", "enable", "service", "recable", "inject") or (op["op"] == "power" and op["on"]):
                 answers.append(" ".join([res] + canon_events(toks)))
             else:
                 answers.append("ok")
